@@ -401,6 +401,37 @@ func init() {
 			err := c2.SolveTo(&x, r.dense(n, 1))
 			return append(append(out, b2f(ok2), errf(err)), flat(&x)...)
 		}},
+		poolOp{"Cholesky.SymRankOne(downdates, factors kept in use)", func(r *opRand, n int) []float64 {
+			// several factorizations are downdated in turn and all of them are
+			// used afterwards: a factor must not share storage with the pool
+			var cs []*mat.Cholesky
+			out := []float64{}
+			for k := 0; k < 3; k++ {
+				var c mat.Cholesky
+				ok := c.Factorize(r.spd(n))
+				x := r.vec(n)
+				x.ScaleVec(0.125, x)
+				var d mat.Cholesky
+				ok2 := d.SymRankOne(&c, -1, x)
+				ok3 := c.SymRankOne(&c, -0.5, x) // in place
+				out = append(out, b2f(ok), b2f(ok2), b2f(ok3))
+				cs = append(cs, &c, &d)
+			}
+			ta := mat.NewTriDense(n, mat.Upper, nil)
+			for i := 0; i < n; i++ {
+				for j := i; j < n; j++ {
+					ta.SetTri(i, j, 1+r.next())
+				}
+			}
+			ta.MulTri(ta, ta) // another user of the triangular workspace pool
+			for _, c := range cs {
+				var s mat.SymDense
+				c.ToSym(&s)
+				out = append(out, flat(&s)...)
+				out = append(out, c.LogDet())
+			}
+			return append(out, flat(ta)...)
+		}},
 		poolOp{"QR/LQ SolveTo(rank deficient)", func(r *opRand, n int) []float64 {
 			a := r.dense(n+2, n)
 			for i := 0; i < n+2; i++ {
